@@ -272,6 +272,9 @@ func (ws *priorityWriteSchedulerRFC7540) CloseStream(streamID uint32) {
 
 	q := n.q
 	ws.queuePool.put(&q)
+	// The node may stay in the tree as a closed node: it must not keep
+	// referring to the recycled queue.
+	n.q = writeQueue{}
 	if ws.maxClosedNodesInTree > 0 {
 		ws.addClosedOrIdleNode(&ws.closedNodes, ws.maxClosedNodesInTree, n)
 	} else {
